@@ -283,6 +283,7 @@ def run(cfg, ops=None, rng=None):
                         "step %d: query results differ on structure %r: first universe %r, second universe %r" % (step, snap, d[0], d[1]),
                     )
                 res.sigs.add(stable_hash(("q", struct.shape_sig(model, {}), op.get("heavy"))))
+                res.hooks_per_op.append(0)
                 step += 1
                 continue
             pre_sig = struct.shape_sig(model, struct.op_marks(op))
@@ -303,6 +304,7 @@ def run(cfg, ops=None, rng=None):
             res.bump("ops")
             res.bump("op_" + op["op"])
             res.bump("hooks", len(la))
+            res.hooks_per_op.append(len(la))
             for f in fa:
                 res.bump("fault_" + f[4])
                 res.bump("fault@" + f[1])
@@ -363,10 +365,22 @@ def run(cfg, ops=None, rng=None):
 
 
 def sweep(cfg, res, rng, tier):
-    if cfg["prop"] != "C18":
+    """C18: fault-position enumeration on fault-free base histories - the same
+    one-shot fault at every hook position of every operation, on both universes."""
+    if cfg["prop"] != "C18" or cfg["profile"] != "none":
         return
-    return
-    yield
+    ops = res.ops
+    if len([o for o in ops if o["op"] != "query"]) > (8 if tier == "thorough" else 5):
+        return
+    base = [struct.with_fault(o, None) if o["op"] != "query" else o for o in ops]
+    excs = ("SimFault", "SimCancel") if tier == "thorough" else ("SimFault",)
+    for t, op in enumerate(base):
+        if op["op"] == "query":
+            continue
+        tail = [o for o in base[t + 1: t + 2] if o["op"] == "query"]
+        for k in range(res.hooks_per_op[t]):
+            for exc in excs:
+                yield cfg, base[:t] + [struct.with_fault(op, {"once": [[k, exc, None]]})] + tail
 
 
 def simplify_op(op):
